@@ -601,6 +601,74 @@ def member_const(x):
     return (x in (1, "a"), x not in (None,), x in (), x in ("b", 0), x is None or x == 1)
 
 
+def dict_sym(k):
+    d = {"a": 1, "b": 2}
+    r1 = d.get(k, 0)
+    r2 = k in d
+    if k in d:
+        del d[k]
+    d["c"] = 3
+    r3 = d.pop(k, "gone")
+    d.setdefault(k, 9)
+    return (r1, r2, r3, len(d), d.get(k), "c" in d, d[k])
+
+
+def odict_sym(k, limit):
+    od = OrderedDict()
+    od["a"] = 1
+    od["b"] = 2
+    if k in od:
+        od.move_to_end(k)
+    else:
+        od[k] = 3
+    evicted = None
+    if len(od) > limit:
+        evicted = od.popitem(last=False)[0]
+    return (evicted, len(od), k in od, "a" in od)
+
+
+def match_sym(v):
+    match v:
+        case None:
+            return "none"
+        case bool():
+            return "bool"
+        case int() as i if i > 3:
+            return "big"
+        case int():
+            return "int"
+        case str() as s_ if s_:
+            return "str"
+        case _:
+            return "other"
+
+
+def excs_sym(x):
+    log = 0
+    try:
+        try:
+            if x is None:
+                raise Sub("s")
+            if x == 0:
+                raise Boom("b")
+            if x == 1:
+                raise ValueError("v")
+            log += 1
+        except Boom as e:
+            log += 10
+            if isinstance(e, Sub):
+                raise
+        else:
+            log += 100
+        finally:
+            log += 1000
+    except Sub:
+        log += 10000
+    except ValueError:
+        log += 20000
+    return log
+
+
 def kw_scalar(a, b):
     def inner(p, q=5, *, r="r", **rest):
         return (p, q, r, len(rest))
@@ -681,6 +749,11 @@ SYMBOLIC = [
     ("arith", [(7, 2), (-7, 2), (0, 5), (3, 3)], ("int", "int")),
     ("ternary_chain", [(-1,), (0,), (4,)], ("int",)),
     ("ternary_chain", [(-1,), (0,), (4,), (2.5,), (-0.5,), (0.0,)], ("num",)),
+    ("dict_sym", [(k,) for k in ("a", "b", "c", "zz", "")], ("str",)),
+    ("odict_sym", [(k, n) for k in ("a", "b", "q") for n in (1, 2, 3, 0)], ("str", "int")),
+    ("match_sym", [(v,) for v in SCALARS]),
+    ("match_sym", [(v,) for v in (None, True, 0, 9, "", "x")], ("scalar",)),
+    ("excs_sym", [(v,) for v in (None, 0, 1, 2, True, False, "a")], ("scalar",)),
     ("member_const", [(v,) for v in (None, 1, "a", True, 0, "b", False)], ("scalar",)),
     ("classes", [(v,) for v in SCALARS]),
     ("literal_match", [(v,) for v in SCALARS]),
@@ -849,6 +922,8 @@ def main() -> int:
     def sym_arg(st, i, k):
         if k == "int":
             return V.VInt(st.fresh(f"arg{i}", z3.IntSort()))
+        if k == "str":
+            return V.VStr(st.fresh(f"arg{i}", z3.IntSort()))
         if k == "num":          # an int or a float, kind unknown
             v = st.fresh_val(f"arg{i}")
             st.assume(z3.Or(V.is_int(v), V.is_float(v)))
